@@ -1302,6 +1302,16 @@ class BuiltinCalls:
             if x.rng is not None:
                 rng = Interval(math.floor(x.rng.lo) if x.rng.lo > -INF else -INF, math.ceil(x.rng.hi) if x.rng.hi < INF else INF, x.rng.lo == -INF, x.rng.hi == INF)
             return Num(kinds=INT, rng=rng, deg=x.deg, prov=prov, sym=sym)
+        if name == "isclose" and I.explicit and len(nums) >= 2:
+            # a tolerance test is not a function of the order of its operands: two values that differ may still be "close".
+            # Equal terms are close; otherwise the outcome is whatever the run is told to assume (None = open) and the use is recorded.
+            a_, b_ = nums[0], nums[1]
+            st_ = state.copy()
+            eq = I.ops.compare(ast.Eq(), a_, b_, node, st_)
+            if eq.tv is True:
+                return Bool(True, prov)
+            I.tolerance_tests.append((a_.sym, b_.sym))
+            return Bool(I.assume_close, prov)
         if name in ("isfinite", "isnan", "isinf", "isclose"):
             return Bool(None, prov)
         if name == "hypot":
